@@ -10,8 +10,9 @@ import json,subprocess,os,sys
 import glob
 conf={os.path.basename(f)[:-5]: json.load(open(f)) for f in glob.glob('checks/C*.json')}
 jobs=[]
+ready=open('checks/READY').read().split()
 for pid,c in sorted(conf.items()):
-    if c.get('disabled'): continue
+    if c.get('disabled') or pid not in ready: continue
     variants=set([bool(c.get('race',False)), bool(c.get('race_thorough',c.get('race',False)))])
     for race in variants:
         out='.bin/'+pid.lower()+('-race' if race else '')
